@@ -208,6 +208,20 @@ def gen_program(r, max_depth=4, nfuncs=None, allow_while_continue=False):
         if i < nglob:
             prog.append(g.stmt(0, None, False))
     prog.append(g.log())
+    # variables, parameters and loop variables NAMED like the keyword literals: `true = 0` binds a global called "true", and every later
+    # `true` in an expression still reads the literal (the keyword test comes before the scope lookup)
+    if r.random() < 0.2:
+        kws = r.sample(['true', 'false', 'null'], 3)
+        pre = [['assign', kws[0], r.choice(['0', "'kw'", '7'])]]
+        if r.random() < 0.5:
+            pre.append(['for', kws[1], None, 'arrayNew(3, 4)', [['expr', f"systemLog('kwfor ' + {kws[1]} + ' ' + systemType({kws[0]}))"]]])
+        if r.random() < 0.5:
+            pre.append(['function', 'kwfn', [kws[2], 'kv'], False,
+                        [['expr', f"systemLog('kwfn ' + systemType({kws[2]}) + ' ' + systemType(kv))"],
+                         ['if', [[kws[2] + ' == null || ' + kws[2], [['return', "'lit'"]]]], None], ['return', "'var'"]]])
+            prog.append(['expr', "systemLog('kwcall ' + kwfn(5, 6) + kwfn(0, 0))"])
+        prog = pre + prog
+        prog.append(['expr', "systemLog('kw ' + systemType(true) + systemType(false) + systemType(null) + if(true, 1, 2) + if(false, 1, 2))"])
     # a function statement (re)binds its name whatever the name held before: a second definition of the same name replaces the first
     if funcs and r.random() < 0.35:
         name, nargs, last = funcs[0]
